@@ -30,8 +30,32 @@ def _always_exits(stmts):
     return False
 
 
+def _strip_bool(t):
+    """C24: in a truth-test position `bool(x)` is `x` (and so inside and / or / not of such a test)."""
+    if isinstance(t, ast.Call) and isinstance(t.func, ast.Name) and t.func.id == 'bool' and len(t.args) == 1 and not t.keywords \
+            and not isinstance(t.args[0], ast.Starred):
+        return _strip_bool(t.args[0])
+    if isinstance(t, ast.BoolOp):
+        t.values = [_strip_bool(v) for v in t.values]
+    elif isinstance(t, ast.UnaryOp) and isinstance(t.op, ast.Not):
+        t.operand = _strip_bool(t.operand)
+    return t
+
+
 class _Expr(ast.NodeTransformer):
+    def visit_If(self, node):
+        node.test = _strip_bool(node.test)
+        self.generic_visit(node)
+        return node
+
+    def visit_While(self, node):
+        node.test = _strip_bool(node.test)
+        self.generic_visit(node)
+        return node
+
     def visit_UnaryOp(self, node):
+        if isinstance(node.op, ast.Not):
+            node.operand = _strip_bool(node.operand)
         self.generic_visit(node)
         if isinstance(node.op, ast.Not):
             o = node.operand
@@ -136,6 +160,7 @@ class _Expr(ast.NodeTransformer):
 
     def visit_IfExp(self, node):
         """C11: `a if X is X else b` -> a (a trivially decided test left behind by inlining a parametrised helper)."""
+        node.test = _strip_bool(node.test)
         self.generic_visit(node)
         t = node.test
         if isinstance(t, ast.Constant) and isinstance(t.value, bool):
